@@ -64,10 +64,13 @@
 EXTENDS Integers, Sequences, FiniteSets, TLC, Json
 
 CONSTANTS
-  Mode,        \* "table" | "probe" | "full" | "raw"
+  Mode,        \* "table" | "probe" | "full" | "raw" | "callsite" | "scripts"
   MaxCands,    \* probe family: candidates per section (1..3)
   NFill,       \* probe family: how many of the filler kinds are used (1..3)
-  Layouts      \* probe family: subset of {"one", "two-first", "two-second"}
+  Layouts,     \* probe family: subset of {"one", "two-first", "two-second"}
+  MaxAttempts, \* call-site machine: how often an implementation may try to send
+  RetryRaw     \* call-site machine: TRUE = a retry re-reads the unfiltered description (the defect the
+               \* invariant EveryAttemptConforms exists to exclude; used as a self-check that must FAIL)
 
 -----------------------------------------------------------------------------
 (* Addresses. *)
@@ -203,8 +206,10 @@ NoLocalHostLeft(o) ==
 
 -----------------------------------------------------------------------------
 (* Case enumeration (initial states). *)
-VARIABLES desc, probe
-vars == <<desc, probe>>
+VARIABLES desc, probe,
+          keepl, script, sent, st     \* call-site machine (see below)
+vars == <<desc, probe, keepl, script, sent, st>>
+CallIdle == keepl = FALSE /\ script = <<>> /\ sent = <<>> /\ st = "-"
 
 NoProbe == MF("none")
 
@@ -229,7 +234,7 @@ ProbeSections(k) ==
 OtherSections == {<<>>, <<FillSeq[2]>>, <<FillSeq[1], FillSeq[2]>>}
 
 InitProbe ==
-  /\ Mode = "probe"
+  /\ Mode = "probe" /\ CallIdle
   /\ probe \in Kinds
   /\ \E lay \in Layouts : \E s \in ProbeSections(probe) :
        \/ lay = "one" /\ desc = [sess |-> <<>>, media |-> <<s>>]
@@ -245,7 +250,7 @@ Reduced == { FillSeq[1], FillSeq[2], FillSeq[3],
              MF("seven-tokens") }
 SeqsUpTo(S, n) == UNION {[1..k -> S] : k \in 0..n}
 InitFull ==
-  /\ Mode = "full"
+  /\ Mode = "full" /\ CallIdle
   /\ probe = NoProbe
   /\ \/ \E s \in SeqsUpTo(Reduced, 3), ss \in {<<>>, <<FillSeq[2]>>, <<FillSeq[1]>>} :
           desc = [sess |-> ss, media |-> <<s>>]
@@ -253,7 +258,7 @@ InitFull ==
           desc = [sess |-> <<>>, media |-> <<s1, s2>>]
      \/ desc = [sess |-> <<>>, media |-> <<>>]          \* no media section at all
 
-InitTable == Mode = "table" /\ probe \in Kinds /\ desc = [sess |-> <<>>, media |-> <<>>]
+InitTable == Mode = "table" /\ probe \in Kinds /\ desc = [sess |-> <<>>, media |-> <<>>] /\ CallIdle
 
 (* text that is not a description: only totality is demanded *)
 RawClasses ==
@@ -261,11 +266,55 @@ RawClasses ==
    "no-final-newline", "truncated-mid-line", "truncated-after-origin", "media-before-session", "duplicate-version",
    "unknown-line-type", "line-without-equals", "very-long-line", "many-media-sections", "candidate-only",
    "blank-lines", "utf8", "empty-candidate-value", "random-corruption"}
-InitRaw == Mode = "raw" /\ probe \in {MF(k) : k \in RawClasses} /\ desc = [sess |-> <<>>, media |-> <<>>]
+InitRaw == Mode = "raw" /\ probe \in {MF(k) : k \in RawClasses} /\ desc = [sess |-> <<>>, media |-> <<>>] /\ CallIdle
 
-Init == InitProbe \/ InitFull \/ InitTable \/ InitRaw
+-----------------------------------------------------------------------------
+(* The call sites (BrokerChannel.Negotiate, SignalingServer.sendAnswer):
+   "the description a client or proxy SENDS to the broker".  Sending goes
+   through a transport that may fail; an implementation may then try again
+   (the code as it is tries once; up to MaxAttempts are admitted here), and
+   EVERY attempt hands a payload to the transport, i.e. lets a description
+   leave the process.  The environment's behaviour is a script: a prefix of
+   faults (transport-level: connection reset, timeout, EOF, refused; or an HTTP
+   error status), after which the broker answers.
+
+   EveryAttemptConforms: the payload of every attempt - the first one and every
+   retry - conforms to the contract (is the filtered description unless local
+   addresses are kept).  With RetryRaw = TRUE (a retry that rebuilds its body
+   from the unfiltered local description) TLC refutes it: MC_callsite_raw.cfg
+   must FAIL. *)
+FaultKinds == {"reset", "timeout", "eof", "refused", "http500"}
+Scripts == UNION {[1..k -> FaultKinds] : k \in 0..2}
+
+CallDescs ==
+  {[sess |-> <<>>, media |-> <<s>>] : s \in SeqsUpTo({FillSeq[1], FillSeq[2], FillSeq[3], WF("host", "udp", "pion", V6(64768, 0, 1))}, 2)}
+
+InitCall ==
+  /\ Mode = "callsite" /\ probe = NoProbe
+  /\ desc \in CallDescs /\ keepl \in BOOLEAN /\ script \in Scripts
+  /\ sent = <<>> /\ st = "ready"
+InitScripts ==
+  /\ Mode = "scripts" /\ probe = NoProbe /\ desc = [sess |-> <<>>, media |-> <<>>]
+  /\ keepl = FALSE /\ script \in Scripts /\ sent = <<>> /\ st = "-"
+
+Payload(k) == IF keepl THEN desc ELSE IF RetryRaw /\ k > 1 THEN desc ELSE ImplStrip(desc)
+
+Attempt ==
+  /\ st = "ready" /\ Len(sent) < MaxAttempts
+  /\ sent' = Append(sent, Payload(Len(sent) + 1))
+  /\ st' = (IF Len(sent) + 1 <= Len(script) THEN "fault" ELSE "answered")
+  /\ UNCHANGED <<desc, probe, keepl, script>>
+Retry  == st = "fault" /\ Len(sent) < MaxAttempts /\ st' = "ready" /\ UNCHANGED <<desc, probe, keepl, script, sent>>
+GiveUp == st = "fault" /\ st' = "failed" /\ UNCHANGED <<desc, probe, keepl, script, sent>>
+NextCall == Attempt \/ Retry \/ GiveUp
+
+EveryAttemptConforms == \A i \in DOMAIN sent : Conforms(desc, sent[i], keepl)
+NothingLocalEverSent == keepl \/ \A i \in DOMAIN sent : NoLocalHostLeft(sent[i])
+
+Init == InitProbe \/ InitFull \/ InitTable \/ InitRaw \/ InitCall \/ InitScripts
 Stutter == UNCHANGED vars
 Spec == Init /\ [][Stutter]_vars
+SpecCall == Init /\ [][NextCall]_vars
 
 -----------------------------------------------------------------------------
 (* Design-level checks: the filter as coded satisfies the contract. *)
@@ -302,4 +351,6 @@ Emit ==
                         range |-> IF IsWF(probe) THEN RangeName(probe.addr) ELSE "-",
                         islocal |-> IF IsWF(probe) THEN IsLocalExpect(probe.addr) ELSE "any"]))
     [] Mode = "raw" -> PrintT(ToJson([raw |-> probe.kind, expect |-> "total"]))
+    [] Mode = "scripts" -> PrintT(ToJson([faults |-> script, expect |-> "every-payload-conforms"]))
+    [] OTHER -> TRUE
 =============================================================================
